@@ -113,10 +113,15 @@ func (l *ltBroadcast) buildPendBlock(pd *pendBlock) bool {
 
 func (l *ltBroadcast) addLtBlock(ltBlock *types.LightBlock, receiveFrom, publisher peer.ID) {
 
+	// 每个交易位置都需要对应的短哈希, 交易数量不合法的轻区块直接丢弃, 避免按对端给出的数量分配内存
+	txCount := ltBlock.GetHeader().GetTxCount()
+	if txCount <= 0 || txCount > int64(len(ltBlock.GetSTxHashes())) {
+		log.Error("addLtBlock", "txCount", txCount, "sTxHashLen", len(ltBlock.GetSTxHashes()))
+		return
+	}
 	//组装block
 	block := &types.Block{}
 	block.SetHeader(ltBlock.GetHeader())
-	txCount := ltBlock.GetHeader().GetTxCount()
 	block.Txs = make([]*types.Transaction, txCount)
 	//add miner tx
 	block.Txs[0] = ltBlock.MinerTx
